@@ -264,19 +264,23 @@ def run_case(case, cl=None):
                     changed_since_emit = True
             elif name in ("write", "call"):
                 b0 = len(ref.data)
-                if name == "write":
-                    g.write(op["text"])
-                    data = (op["text"].rstrip() + eol).encode("utf-8")
-                    if bytes(ref.data[b0:]) != data:
-                        raise Violation(f"{where}: reference writer received "
-                                        f"{bytes(ref.data[b0:])!r}, expected {data!r}")
-                else:
-                    if op["call"] == "move":
+                try:
+                    if name == "write":
+                        g.write(op["text"])
+                    elif op["call"] == "move":
                         g.move(x=op["v"], comment=op["text"] or None)
                     elif op["call"] == "comment":
                         g.comment(op["text"])
                     else:
                         g.annotate("key", op["text"])
+                except Exception as e:
+                    raise Violation(f"{where} raised {type(e).__name__}: {e}")
+                if name == "write":
+                    data = (op["text"].rstrip() + eol).encode("utf-8")
+                    if bytes(ref.data[b0:]) != data:
+                        raise Violation(f"{where}: reference writer received "
+                                        f"{bytes(ref.data[b0:])!r}, expected {data!r}")
+                else:
                     data = bytes(ref.data[b0:])
                     if not data.endswith(eol.encode()) or data.count(eol.encode()) != 1 \
                             and eol not in op["text"]:
